@@ -236,7 +236,9 @@ def lean_sources():
         for f in files:
             if f.endswith(".lean"):
                 res.append(os.path.join(root, f))
-    res.append(os.path.join(LEAN, "Driver.lean"))
+    for f in os.listdir(os.path.join(LEAN, "drivers")):
+        if f.endswith(".lean"):
+            res.append(os.path.join(LEAN, "drivers", f))
     return res
 
 
@@ -300,15 +302,15 @@ def failing_theorems(log):
 class Driver:
     """Batch line protocol with `lake env lean --run Driver.lean`."""
 
-    def __init__(self):
-        self.ok = None
+    def __init__(self, prop):
+        self.path = "drivers/%s.lean" % prop
 
     def run(self, lines, timeout=1200):
         if not lines:
             return []
         inp = "\n".join(lines) + "\n"
         p = subprocess.run(
-            ["lake", "env", "lean", "--run", "Driver.lean"],
+            ["lake", "env", "lean", "--run", self.path],
             cwd=LEAN,
             input=inp,
             stdout=subprocess.PIPE,
